@@ -1,9 +1,9 @@
 package main
 
 import (
-	"strings"
 	"fmt"
 	"math/rand"
+	"strings"
 )
 
 func init() {
@@ -22,7 +22,7 @@ func init() {
 // quick: all quantities 0..2200, boundaries, a random sample; thorough: every quantity 0..65535.
 func sweepNewArgs(kind string, tier string, rng *rand.Rand, shard, nshards int, framings []string, emit emitter) {
 	i := 0
-	hdr := func() (int, int, int) { return rng.Intn(65536), u8(rng), u16(rng) }
+	hdr := func() (int, int, int) { return tidv(rng), u8(rng), u16(rng) }
 	for _, fr := range framings {
 		// read functions: quantity axis
 		for _, fc := range []int{1, 2, 3, 4} {
@@ -227,7 +227,7 @@ func validResponsePDU(rng *rand.Rand, fc int) []byte {
 
 func frameOf(rng *rand.Rand, framing string, pdu []byte) []byte {
 	if framing == "t" {
-		return mbapFrame(rng.Intn(65536), u8(rng), pdu)
+		return mbapFrame(tidv(rng), u8(rng), pdu)
 	}
 	return withCRC(append([]byte{byte(u8(rng))}, pdu...))
 }
@@ -317,6 +317,25 @@ func genParseStructured(entry string, tier string, rng *rand.Rand, emit emitter)
 				}
 				emit(parseOp(entry, d, poison(rng)))
 			}
+			// (a') the narrowing region: frames longer than 256 bytes whose byte count field holds the payload length
+			// modulo 256 (a length check done in 8-bit arithmetic lets exactly these through)
+			wrapStep := 7
+			if tier == "thorough" {
+				wrapStep = 1
+			}
+			for n := 258 + rng.Intn(wrapStep); n <= 560; n += wrapStep {
+				d := rbytes(rng, n)
+				if fr == "t" {
+					d[2], d[3] = 0, 0
+					fixLen(d)
+				}
+				d[fcPos] = byte(fc)
+				setByteCountW(d, fr, isResp, fc, rng, true)
+				if fr == "r" && rng.Intn(2) == 0 {
+					d = withCRC(d[:n-2])
+				}
+				emit(parseOp(entry, d, poison(rng)))
+			}
 			// (b) header-consistent truncations / extensions of a valid frame
 			var pdu []byte
 			if isResp {
@@ -349,6 +368,13 @@ func genParseStructured(entry string, tier string, rng *rand.Rand, emit emitter)
 				}
 				emit(parseOp(entry, d, sp))
 			}
+			// (b') raw prefixes of the valid frame: the header announces more than is there (the stream classifier and the
+			// header parser see exactly this while a frame arrives)
+			if fr == "t" {
+				for k := 0; k < len(full) && k <= 20; k++ {
+					emit(parseOp(entry, append([]byte{}, full[:k]...), poison(rng)))
+				}
+			}
 			// (c) single mutations of the valid frame
 			for m := 0; m < 12; m++ {
 				d := append([]byte{}, full...)
@@ -377,6 +403,10 @@ func genParseStructured(entry string, tier string, rng *rand.Rand, emit emitter)
 // setByteCount writes a byte-count value consistent with the slice length at the position the
 // function's layout has it (requests: FC15/16 at pdu+5, FC23 at pdu+9; responses: pdu+1)
 func setByteCount(d []byte, fr string, isResp bool, fc int, rng *rand.Rand) {
+	setByteCountW(d, fr, isResp, fc, rng, false)
+}
+
+func setByteCountW(d []byte, fr string, isResp bool, fc int, rng *rand.Rand, wrap bool) {
 	base := 1 // index of function code
 	tail := 2 // crc
 	if fr == "t" {
@@ -408,7 +438,11 @@ func setByteCount(d []byte, fr string, isResp bool, fc int, rng *rand.Rand) {
 		rest = 0
 	}
 	if rest > 255 {
-		rest = 255
+		if wrap {
+			rest = rest % 256
+		} else {
+			rest = 255
+		}
 	}
 	d[pos] = byte(rest)
 	// plausible quantities so that the deep guards are reached
@@ -449,6 +483,9 @@ func setByteCount(d []byte, fr string, isResp bool, fc int, rng *rand.Rand) {
 }
 
 func genC10(tier string, rng *rand.Rand, shard, nshards int, emit emitter) {
+	// the server's assembler consumes what the classifier and the dispatcher return (valid, unsupported, out of range,
+	// truncated and inconsistent frames, segmented)
+	genC15("sample", rng, shard, nshards, emit)
 	for i, e := range allParseEntries {
 		if mine(i, shard, nshards) {
 			genParseStructured(e, tier, rng, emit)
@@ -604,7 +641,10 @@ func genC02(tier string, rng *rand.Rand, shard, nshards int, emit emitter) {
 			// byte count x actual length
 			for _, fc := range []int{1, 2, 3, 4, 23, 17} {
 				for bc := 0; bc <= 255; bc++ {
-					for delta := -2; delta <= 2; delta++ {
+					// the last delta is a whole number of 256s (plus/minus one): a payload whose length agrees with the byte
+					// count only in 8-bit arithmetic
+					deltas := []int{-2, -1, 0, 1, 2, []int{256, 256, 255, 257, 512}[rng.Intn(5)]}
+					for _, delta := range deltas {
 						i++
 						if !mine(i, shard, nshards) {
 							continue
@@ -667,7 +707,7 @@ func genC02(tier string, rng *rand.Rand, shard, nshards int, emit emitter) {
 				if tier != "thorough" && (f*256+c)%3 != 0 && c > 12 {
 					continue
 				}
-				dt := mbapFrame(rng.Intn(65536), u8(rng), []byte{byte(f), byte(c)})
+				dt := mbapFrame(tidv(rng), u8(rng), []byte{byte(f), byte(c)})
 				emit(parseOp("respT", dt, poison(rng)))
 				dr := withCRC([]byte{byte(u8(rng)), byte(f), byte(c)})
 				emit(parseOp("respR", dr, poison(rng)))
@@ -677,6 +717,7 @@ func genC02(tier string, rng *rand.Rand, shard, nshards int, emit emitter) {
 					emit(parseOp(fmt.Sprintf("respR.%d", supportedFCs[(f+c)%10]), dr, poison(rng)))
 					emit(parseOp("aserrT", dt, poison(rng)))
 					emit(parseOp("aserrR", dr, poison(rng)))
+					emit(parseOp("aserrRC", dr, poison(rng)))
 				}
 			}
 		}
@@ -699,6 +740,17 @@ func genC03(tier string, rng *rand.Rand, shard, nshards int, emit emitter) {
 				emit("crc " + hx(rbytes(rng, n)))
 			}
 		}
+	}
+	// messages that contain their own checksum in the middle (a complete frame followed by more bytes: the register is
+	// zero after the frame) and messages that drive the register through 0x0000 / 0xFFFF at other places
+	for k := 0; k < 400*reps/6; k++ {
+		i++
+		if !mine(i, shard, nshards) {
+			continue
+		}
+		inner := withCRC(rbytes(rng, rng.Intn(12)))
+		emit("crc " + hx(append(inner, rbytes(rng, 1+rng.Intn(10))...)))
+		emit("crc " + hx(append(append(rbytes(rng, rng.Intn(3)), inner...), inner...)))
 	}
 	// all one- and two-byte messages (every 16-bit state is reached after two bytes)
 	for v := 0; v < 256; v++ {
@@ -764,7 +816,7 @@ func genC03(tier string, rng *rand.Rand, shard, nshards int, emit emitter) {
 			}
 			emit(fmt.Sprintf("encresp %d r 0 %d %d %s", fc, u8(rng), bl, hxOrDash(rbytes(rng, dl))))
 			if k%16 == 0 {
-				emit(fmt.Sprintf("encresp %d t %d %d %d %s", fc, rng.Intn(65536), u8(rng), bl, hxOrDash(rbytes(rng, dl))))
+				emit(fmt.Sprintf("encresp %d t %d %d %d %s", fc, tidv(rng), u8(rng), bl, hxOrDash(rbytes(rng, dl))))
 			}
 		}
 	}
@@ -781,6 +833,13 @@ func genC03(tier string, rng *rand.Rand, shard, nshards int, emit emitter) {
 	}
 	frames = append(frames, withCRC([]byte{1, 0x83, 2}), withCRC([]byte{}), withCRC([]byte{7}), withCRC([]byte{7, 1}))
 	ents = append(ents, "respRC", "respRC", "reqRC", "respRC")
+	// exception frames through the CRC-verifying recogniser of the RTU clients (and a 5-byte non-exception frame)
+	for k := 0; k < 6; k++ {
+		frames = append(frames, withCRC([]byte{byte(u8(rng)), byte(128 + rng.Intn(128)), byte(u8(rng))}))
+		ents = append(ents, "aserrRC")
+	}
+	frames = append(frames, withCRC([]byte{byte(u8(rng)), byte(rng.Intn(128)), byte(u8(rng))}), withCRC([]byte{1, 0x83, 2}))
+	ents = append(ents, "aserrRC", "aserrRC")
 	for fi, f := range frames {
 		emitT := func(t int) {
 			d := append([]byte{}, f...)
@@ -804,6 +863,11 @@ func genC03(tier string, rng *rand.Rand, shard, nshards int, emit emitter) {
 			for k := 0; k < 1500; k++ {
 				emitT(rng.Intn(65536))
 			}
+		}
+		// a correctly checksummed frame followed by more bytes (noise, the start of the next frame, itself): the trailer
+		// that counts is the last two bytes of what was handed in
+		for _, tail := range [][]byte{rbytes(rng, 1), rbytes(rng, 2), rbytes(rng, 3), rbytes(rng, 4), f[:1], f, {0, 0}, {0xFF, 0xFF}} {
+			emit(parseOp(ents[fi], append(append([]byte{}, f...), tail...), poison(rng)))
 		}
 		// corrupt the body, keep the trailer
 		for k := 0; k < 40; k++ {
@@ -891,6 +955,7 @@ func genC11(tier string, rng *rand.Rand, shard, nshards int, emit emitter) {
 	if tier == "thorough" {
 		nx = 40000
 	}
+	genXf(rng, "c", nx, shard, nshards, emit)
 	for j := 0; j < nx; j++ {
 		if !mine(j, shard, nshards) {
 			continue
@@ -927,9 +992,9 @@ func genC11(tier string, rng *rand.Rand, shard, nshards int, emit emitter) {
 			continue
 		}
 		fr := []string{"t", "r"}[n%2]
-		emit(newreqOp("newreq", 15, fr, rng.Intn(65536), u8(rng), rng.Intn(60000), 0, false, 0, "-", rbits(rng, n)))
+		emit(newreqOp("newreq", 15, fr, tidv(rng), u8(rng), rng.Intn(60000), 0, false, 0, "-", rbits(rng, n)))
 		if n%8 == 0 {
-			emit(newreqOp("newreq", 15, []string{"r", "t"}[n%2], rng.Intn(65536), u8(rng), rng.Intn(60000), 0, false, 0, "-", strings.Repeat("1", n)))
+			emit(newreqOp("newreq", 15, []string{"r", "t"}[n%2], tidv(rng), u8(rng), rng.Intn(60000), 0, false, 0, "-", strings.Repeat("1", n)))
 		}
 	}
 }
@@ -980,7 +1045,7 @@ func genC18(tier string, rng *rand.Rand, shard, nshards int, emit emitter) {
 				protos = []int{0, 1, 256}
 			}
 			for _, p := range protos {
-				tid := rng.Intn(65536)
+				tid := tidv(rng)
 				h := []byte{byte(tid >> 8), byte(tid), byte(p >> 8), byte(p), byte(lf >> 8), byte(lf), byte(u8(rng)), byte(fc)}
 				n := lf + 6 - 8
 				if n < 0 {
